@@ -206,6 +206,11 @@ func crlBundleClass(base, delta *CRLSpec, certHasFreshest bool, issuerHasCRLSign
 	if certHasFreshest && delta == nil {
 		return ClNone
 	}
+	if base.advertises() && delta == nil {
+		// the base CRL points at a delta CRL that the bundle does not carry:
+		// the evidence is incomplete (the fetcher must never deliver this)
+		return ClNone
+	}
 	either := false
 	switch crlListOK(base, issuerHasCRLSign, now) {
 	case "none":
